@@ -295,9 +295,13 @@ def transform(rng, kind, d=2, n_align=None):
     if kind == "Translation":
         return mt.Translation(rng.uniform(-5, 5, d))
     if kind == "UniformScale":
-        return mt.UniformScale(float(rng.uniform(0.4, 2.5)), d)
+        # (a negative factor is a legal member: a point reflection; only zero is refused)
+        return mt.UniformScale(float(rng.uniform(0.4, 2.5)) * (-1.0 if rng.random() < 0.2 else 1.0), d)
     if kind == "NonUniformScale":
-        return mt.NonUniformScale(rng.uniform(0.4, 2.5, d))
+        sc = rng.uniform(0.4, 2.5, d)
+        if rng.random() < 0.2:
+            sc[rng.integers(0, d)] *= -1.0          # a mirrored axis
+        return mt.NonUniformScale(sc)
     if kind.startswith("Alignment"):
         s, t = src_tgt(rng, d, n_align)
         if kind == "AlignmentSimilarity":
